@@ -25,7 +25,7 @@ static const char *KINDN[NKINDS] = { "bits-a8r8g8b8", "bits-r5g6b5", "bits-c8-in
 #define IS_BITS(k) ((k) <= K_C8)
 
 enum { F_XF, F_FIL, F_REP, F_CLIP, F_CSRC, F_CCL, F_AMAP, F_CA, F_ACC, F_DITH, F_DOFF, F_PAL, NFIELDS };
-static const int NVAL[NFIELDS] = { 8, 6, 4, 4, 2, 2, 3, 2, 2, 3, 2, 3 };
+static const int NVAL[NFIELDS] = { 8, 6, 4, 4, 2, 2, 4, 2, 2, 3, 2, 3 };
 static const char *FIELDN[NFIELDS] = { "set_transform", "set_filter", "set_repeat", "set_clip_region", "set_source_clipping", "set_has_client_clip",
                                        "set_alpha_map", "set_component_alpha", "set_accessors", "set_dither", "set_dither_offset", "set_indexed" };
 static const char *VALN[NFIELDS][8] = {
@@ -34,7 +34,7 @@ static const char *VALN[NFIELDS][8] = {
     { "none", "normal", "pad", "reflect" },
     { "none", "r1(region32: 1,1-4,3)", "r2(region16: 0,0-3,2 + 2,2-5,4)", "r3(region32: 0,0-5,1 + 0,1-2,4; same extents and rectangle count as r2)" },
     { "off", "on" }, { "off", "on" },
-    { "none", "m@(0,0)", "m@(1,0)" },
+    { "none", "m@(0,0)", "m@(1,0)", "m@(0,0)+accessors-set-on-the-map-image-itself(only the map is touched if it is already attached there)" },
     { "off", "on" }, { "off", "on(xor-1 read/write callbacks)" },
     { "none", "ordered-bayer-8", "ordered-blue-noise-64" }, { "(0,0)", "(1,2)" },
     { "p1", "p2", "p3(= p1 in the first half of both tables)" },
@@ -172,7 +172,17 @@ static void apply_setter(obj_t *o, int f, int v)
         break;
     case F_CSRC: pixman_image_set_source_clipping(im, v); break;
     case F_CCL: pixman_image_set_has_client_clip(im, v); break;
-    case F_AMAP: if (v == 0) pixman_image_set_alpha_map(im, NULL, 0, 0); else pixman_image_set_alpha_map(im, o->amap, (int16_t)(v - 1), 0); break;
+    case F_AMAP:
+        /* value 3 changes a property of the ALPHA-MAP image (a separate long-lived image that is only ever validated through its owner);
+         * when the map is already attached at (0,0) the owner is not touched at all */
+        if (v == 3) {
+            pixman_image_set_accessors(o->amap, acc_read, acc_write);
+            if (!(im->common.alpha_map == &o->amap->bits && im->common.alpha_origin_x == 0 && im->common.alpha_origin_y == 0)) pixman_image_set_alpha_map(im, o->amap, 0, 0);
+        } else {
+            if (o->amap) pixman_image_set_accessors(o->amap, NULL, NULL);
+            if (v == 0) pixman_image_set_alpha_map(im, NULL, 0, 0); else pixman_image_set_alpha_map(im, o->amap, (int16_t)(v - 1), 0);
+        }
+        break;
     case F_CA: pixman_image_set_component_alpha(im, v); break;
     case F_ACC: if (v) pixman_image_set_accessors(im, acc_read, acc_write); else pixman_image_set_accessors(im, NULL, NULL); break;
     case F_DITH: { static const pixman_dither_t d[3] = { PIXMAN_DITHER_NONE, PIXMAN_DITHER_ORDERED_BAYER_8, PIXMAN_DITHER_ORDERED_BLUE_NOISE_64 }; pixman_image_set_dither(im, d[v]); break; }
@@ -207,7 +217,8 @@ static const char *model_mismatch(const obj_t *o, const ast_t *s)
     if (!!c->component_alpha != s->v[F_CA]) return "component_alpha";
     if (IS_BITS(o->kind)) {
         if ((c->alpha_map != NULL) != (s->v[F_AMAP] != 0)) return "alpha_map";
-        if (s->v[F_AMAP] && (c->alpha_map != &o->amap->bits || c->alpha_origin_x != s->v[F_AMAP] - 1 || c->alpha_origin_y != 0)) return "alpha_map origin";
+        if (s->v[F_AMAP] && (c->alpha_map != &o->amap->bits || c->alpha_origin_x != (s->v[F_AMAP] == 2 ? 1 : 0) || c->alpha_origin_y != 0)) return "alpha_map origin";
+        if (o->amap && (o->amap->bits.read_func != NULL) != (s->v[F_AMAP] == 3)) return "alpha map image accessors";
         if ((o->img->bits.read_func != NULL) != (s->v[F_ACC] != 0)) return "accessors";
         if ((int)o->img->bits.dither != (s->v[F_DITH] == 0 ? PIXMAN_DITHER_NONE : s->v[F_DITH] == 1 ? PIXMAN_DITHER_ORDERED_BAYER_8 : PIXMAN_DITHER_ORDERED_BLUE_NOISE_64)) return "dither";
         if (o->img->bits.dither_offset_x != (s->v[F_DOFF] ? 1 : 0) || o->img->bits.dither_offset_y != (s->v[F_DOFF] ? 2 : 0)) return "dither_offset";
@@ -319,7 +330,7 @@ static void make_trans(space_t *sp, int kind)
     sp->ntrans = 0;
     add_trans(sp, F_XF, 8); add_trans(sp, F_REP, 4);
     if (IS_BITS(kind)) {
-        add_trans(sp, F_FIL, 6); add_trans(sp, F_CLIP, 4); add_trans(sp, F_CSRC, 2); add_trans(sp, F_CCL, 2); add_trans(sp, F_AMAP, 3); add_trans(sp, F_CA, 2);
+        add_trans(sp, F_FIL, 6); add_trans(sp, F_CLIP, 4); add_trans(sp, F_CSRC, 2); add_trans(sp, F_CCL, 2); add_trans(sp, F_AMAP, 4); add_trans(sp, F_CA, 2);
         add_trans(sp, F_ACC, 2); add_trans(sp, F_DITH, 3); add_trans(sp, F_DOFF, 2);
         if (kind == K_C8) add_trans(sp, F_PAL, 3);
     } else {
